@@ -9,7 +9,7 @@ that agree outside a dead set of names. Steps: exact steps, plus any step that i
 relation (`HR.gen…`), in particular dropping / adding pure `local` declarations
 (`LkB.dropLocal`, `LkB.addLocal`, `LkRep.dropLocal`).
 
-* `HooksHeap P` — each hook maps a node to a node reachable by a chain of links (`Chain LkE` …).
+* `HooksHeap cx P` — each hook maps a node to a node reachable by a chain of links (`Chain (LkE cx)` …).
 * `Visitor.visit_heap` — then the visited program has the same observable outcome
   (`Sem.runProgram`), for every program (functions included).
 * `HooksExact.toHeap` — exactly sound hooks that introduce no new identifier references are heap hooks,
@@ -23,30 +23,30 @@ macro "hook_id_h" : tactic =>
 
 /-- every hook rewrites a node by a chain of `HR` links (see `Heap/HLinks.lean`); identity hooks are
 discharged by default -/
-structure HooksHeap {σ : Type} (P : Processor σ) : Prop where
-  expr : ∀ e s, Chain LkE e (P.expr e s).1 := by hook_id_h
-  pref : ∀ e s, Chain LkE e (P.pref e s).1 := by hook_id_h
-  target : ∀ e s, Chain LkT e (P.target e s).1 := by hook_id_h
-  node : ∀ e s, Chain LkE e (P.node e s).1 ∧ Chain LkT e (P.node e s).1 := by hook_id_h
-  afterNode : ∀ e s, Chain LkE e (P.afterNode e s).1 ∧ Chain LkT e (P.afterNode e s).1 := by hook_id_h
-  stmt : ∀ x s, Chain LkS x (P.stmt x s).1 := by hook_id_h
-  stmtNode : ∀ x s, Chain LkS x (P.stmtNode x s).1 := by hook_id_h
-  afterStmtNode : ∀ x s, Chain LkS x (P.afterStmtNode x s).1 := by hook_id_h
-  last : ∀ x s, Chain LkL x (P.last x s).1 := by hook_id_h
+structure HooksHeap {σ : Type} (cx : Cx) (P : Processor σ) : Prop where
+  expr : ∀ e s, Chain (LkE cx) e (P.expr e s).1 := by hook_id_h
+  pref : ∀ e s, Chain (LkE cx) e (P.pref e s).1 := by hook_id_h
+  target : ∀ e s, Chain (LkT cx) e (P.target e s).1 := by hook_id_h
+  node : ∀ e s, Chain (LkE cx) e (P.node e s).1 ∧ Chain (LkT cx) e (P.node e s).1 := by hook_id_h
+  afterNode : ∀ e s, Chain (LkE cx) e (P.afterNode e s).1 ∧ Chain (LkT cx) e (P.afterNode e s).1 := by hook_id_h
+  stmt : ∀ x s, Chain (LkS cx) x (P.stmt x s).1 := by hook_id_h
+  stmtNode : ∀ x s, Chain (LkS cx) x (P.stmtNode x s).1 := by hook_id_h
+  afterStmtNode : ∀ x s, Chain (LkS cx) x (P.afterStmtNode x s).1 := by hook_id_h
+  last : ∀ x s, Chain (LkL cx) x (P.last x s).1 := by hook_id_h
   /-- block hooks see blocks whose final scope may still matter (`repeat` bodies): open links -/
-  block : ∀ b s, Chain LkBo b (P.block b s).1 := by hook_id_h
-  afterBlock : ∀ b s, Chain LkBo b (P.afterBlock b s).1 := by hook_id_h
-  scopeB : ∀ b s, Chain LkB b (P.scope b none s).1.1 := by hook_id_h
-  scopeR : ∀ b c s, Chain LkRep (b, c) ((P.scope b (some c) s).1.1, (P.scope b (some c) s).1.2.getD c) := by
+  block : ∀ b s, Chain (LkBo cx) b (P.block b s).1 := by hook_id_h
+  afterBlock : ∀ b s, Chain (LkBo cx) b (P.afterBlock b s).1 := by hook_id_h
+  scopeB : ∀ b s, Chain (LkB cx) b (P.scope b none s).1.1 := by hook_id_h
+  scopeR : ∀ b c s, Chain (LkRep cx) (b, c) ((P.scope b (some c) s).1.1, (P.scope b (some c) s).1.2.getD c) := by
     hook_id_h
   insert : ∀ n s, (P.insert n s).1 = n := by hook_id_h
   insertLocalName : ∀ n v s, (P.insertLocal n v s).1.1 = n := by hook_id_h
-  insertLocalVal : ∀ n v s, Chain LkE v ((P.insertLocal n (some v) s).1.2.getD v) := by hook_id_h
+  insertLocalVal : ∀ n v s, Chain (LkE cx) v ((P.insertLocal n (some v) s).1.2.getD v) := by hook_id_h
   insertLocalFn : ∀ n s, (P.insertLocalFn n s).1 = n := by hook_id_h
 
-variable {σ : Type} {P : Processor σ}
+variable {σ : Type} {P : Processor σ} {cx : Cx}
 
-theorem HooksHeap.toRel (H : HooksHeap P) : HooksRel heapFam P where
+theorem HooksHeap.toRel (H : HooksHeap cx P) : HooksRel (heapFam cx) P where
   expr := H.expr
   pref := H.pref
   target := H.target
@@ -66,7 +66,7 @@ theorem HooksHeap.toRel (H : HooksHeap P) : HooksRel heapFam P where
   insertLocalFn := H.insertLocalFn
 
 /-- a chain of closed-block links between whole programs preserves the observable outcome -/
-theorem Sem.Heap.chain_runProgram {b b' : Block} (h : Chain LkB b b') {N : NumOps} (ρ : ExtOracle N) (n : Nat)
+theorem Sem.Heap.chain_runProgram {b b' : Block} (h : Chain (LkB cx) b b') {N : NumOps} (ρ : ExtOracle N) (n : Nat)
     (externs : List String) : runProgram ρ n externs b' = runProgram ρ n externs b := by
   induction h with
   | refl => rfl
@@ -74,23 +74,23 @@ theorem Sem.Heap.chain_runProgram {b b' : Block} (h : Chain LkB b b') {N : NumOp
     obtain ⟨⟨D', hr⟩, _⟩ := hl [] (fun _ hx => absurd hx (by simp))
     exact ih.trans (runProgram_hr ρ n externs hr)
 
-theorem Visitor.visit_chain (H : HooksHeap P) (sc : Bool) (fuel : Nat) (pushes : Bool) (b : Block) (s : σ) :
-    Chain LkB b (Visitor.visitBlock P sc fuel pushes b s).1 :=
-  Visitor.visit_rel (C := heapFam) H.toRel sc fuel pushes b s
+theorem Visitor.visit_chain (H : HooksHeap cx P) (sc : Bool) (fuel : Nat) (pushes : Bool) (b : Block) (s : σ) :
+    Chain (LkB cx) b (Visitor.visitBlock P sc fuel pushes b s).1 :=
+  Visitor.visit_rel (C := heapFam cx) H.toRel sc fuel pushes b s
 
 /-- **Stage 3 lifting theorem.** Hooks that rewrite by `HR` links (exact steps and
 allocation-insensitive steps) ⇒ the visited program has the same observable outcome. -/
-theorem Visitor.visit_heap (H : HooksHeap P) (sc : Bool) (fuel : Nat) (pushes : Bool) (b : Block) (s : σ)
+theorem Visitor.visit_heap (H : HooksHeap cx P) (sc : Bool) (fuel : Nat) (pushes : Bool) (b : Block) (s : σ)
     {N : NumOps} (ρ : ExtOracle N) (n : Nat) (externs : List String) :
     runProgram ρ n externs (Visitor.visitBlock P sc fuel pushes b s).1 = runProgram ρ n externs b :=
   chain_runProgram (Visitor.visit_chain H sc fuel pushes b s) ρ n externs
 
-theorem Visitor.runDefault_heap (H : HooksHeap P) (b : Block) (s : σ)
+theorem Visitor.runDefault_heap (H : HooksHeap cx P) (b : Block) (s : σ)
     {N : NumOps} (ρ : ExtOracle N) (n : Nat) (externs : List String) :
     runProgram ρ n externs (Visitor.runDefault P b s).1 = runProgram ρ n externs b :=
   Visitor.visit_heap H false _ true b s ρ n externs
 
-theorem Visitor.runScoped_heap (H : HooksHeap P) (b : Block) (s : σ)
+theorem Visitor.runScoped_heap (H : HooksHeap cx P) (b : Block) (s : σ)
     {N : NumOps} (ρ : ExtOracle N) (n : Nat) (externs : List String) :
     runProgram ρ n externs (Visitor.runScoped P b s).1 = runProgram ρ n externs b :=
   Visitor.visit_heap H true _ true b s ρ n externs
@@ -115,7 +115,7 @@ structure HooksNoRef {σ : Type} (P : Processor σ) : Prop where
   insertLocalVal : ∀ n v s D, NoRefE D v → NoRefE D ((P.insertLocal n (some v) s).1.2.getD v) := by
     (intros; assumption)
 
-theorem HooksExact.toHeap (H : HooksExact P) (F : HooksNoRef P) : HooksHeap P where
+theorem HooksExact.toHeap (H : HooksExact P) (F : HooksNoRef P) : HooksHeap cx P where
   expr := fun e s => .single (.ofEq (H.expr e s) (F.expr e s))
   pref := fun e s => .single (.ofEq (H.pref e s) (F.pref e s))
   target := fun e s => .single (.ofEq (H.target e s) (F.target e s))
@@ -188,7 +188,7 @@ theorem dropIn_spec (cr : String → Bool) (last : Option Last) (ss : List Stmt)
       · exact step _ (by simp only [dropIn, hc, Bool.false_eq_true, if_false])
     | _ => exact step _ (by simp only [dropIn])
 
-theorem hooksHeap : HooksHeap processor where
+theorem hooksHeap : HooksHeap Cx.none processor where
   scopeB := fun b s => by
     cases b with
     | mk ss last =>
